@@ -26,6 +26,7 @@ import sys
 import tempfile
 import threading
 import time
+import warnings
 
 from harness import core
 
@@ -370,13 +371,29 @@ BLOCK = re.compile(r"--- Logging error in Loguru Handler #(\d+) ---\nRecord was:
                    re.S)
 
 
+def _is_junk(text):
+    """anything on stderr that is not a report block – except the interpreter's own 'never awaited' warnings
+    (a coroutine whose scheduling failed)"""
+    lines, skip = [], False
+    for l in text.split("\n"):
+        if "RuntimeWarning" in l or "tracemalloc" in l or "never awaited" in l:
+            skip = True              # the warning line; the source line printed under it is indented
+            continue
+        if skip and l.startswith(" "):
+            continue
+        skip = False
+        if l.strip():
+            lines.append(l)
+    return bool(lines)
+
+
 def parse_reports(per_thread):
     events, junk = [], []
     for name, text in per_thread.items():
         src = "w" if name.startswith("loguru-writer-") else "m"
         pos = 0
         for m in BLOCK.finditer(text):
-            if text[pos:m.start()].strip():
+            if _is_junk(text[pos:m.start()]):
                 junk.append(text[pos:m.start()])
             pos = m.end()
             hid = int(m.group(1))
@@ -392,7 +409,7 @@ def parse_reports(per_thread):
             else:
                 mi = re.search(r"'i': (\d+)", rec)
                 events.append(ev_report(hid, int(mi.group(1)) if mi else -2, kind, False, src))
-        if text[pos:].strip():
+        if _is_junk(text[pos:]):
             junk.append(text[pos:])
     return events, junk
 
@@ -407,6 +424,28 @@ def idx_of_text(text, serialize):
     except Exception:  # noqa
         pass
     return "?" + repr(text)[:30]
+
+
+class LoopProxy:
+    """what a coroutine sink gets as `loop=`: the running loop, except that `create_task` fails as the fault
+    table says for the message the coroutine was made for"""
+
+    def __init__(self, impl, h, real):
+        self._impl, self._h, self._real = impl, h, real
+
+    def create_task(self, coro, **kw):
+        try:
+            i = coro.cr_frame.f_locals["message"].record["extra"]["i"]
+        except Exception:  # noqa
+            i = -1
+        k = self._impl.t["faults"].get((i, self._h, "write"))
+        if k is not None:
+            coro.close()
+            raise mk_exc(k, self._h, i, "write")
+        return self._real.create_task(coro, **kw)
+
+    def __getattr__(self, name):
+        return getattr(self._real, name)
 
 
 class Impl:
@@ -460,6 +499,9 @@ class Impl:
                 lg = lg.opt(exception=ValueError("e%d" % i))
         lg.log(LEVEL_NAMES[level_of(t, i)], "m%d" % i)
 
+    def on_filter(self, h, record):
+        pass
+
     def on_write(self, h, message):
         """common body of every synchronous sink"""
         i = message.record["extra"]["i"]
@@ -511,7 +553,10 @@ class Impl:
                 i = message.record["extra"]["i"]
                 me.fault(i, h, "coroBody")
                 me.contents[h].append(idx_of_text(str(message), ser))
-            # faults of the (synchronous) `write` stage cannot be injected into a coroutine function
+            # the synchronous part of AsyncSink.write = scheduling the task on the loop: a loop object that
+            # refuses (a closed loop raises RuntimeError; here any kind, from the fault table) fails the `write` stage
+            if not self.scn["noloop"]:
+                kw["loop"] = LoopProxy(self, h, asyncio.get_running_loop())
         else:
             class H(logging.Handler):
                 def createLock(self):
@@ -532,6 +577,7 @@ class Impl:
         if c["filter"]:
             def flt(record):
                 i = record["extra"]["i"]
+                me.on_filter(h, record)
                 me.fault(i, h, "filter")
                 return (i, h) not in me.t["rejects"]
             kw["filter"] = flt
@@ -693,6 +739,266 @@ def run_impl(scn, timeout=WATCHDOG_S):
     return "ok", box["obs"]
 
 
+# ----------------------------------------------------------------------------- oracle-only streams
+def run_watchdog(target, params, timeout=WATCHDOG_S):
+    """run target(params, box) in a watchdog thread -> (status, box)"""
+    box = {}
+    old = sys.stderr
+    th = threading.Thread(target=target, args=(params, box), daemon=True, name="c04-oracle")
+    th.start()
+    th.join(timeout)
+    sys.stderr = old
+    if th.is_alive():
+        _hang_seen()
+        return "hang", box
+    if "exc" in box:
+        raise box["exc"]
+    return "ok", box
+
+
+class ConcImpl(Impl):
+    """several threads log to the same handler while its sink re-uses the logger (handler 0 = the one under
+    test, handler 1 = a plain recorder registered after it)"""
+
+    def __init__(self, params, tmp, rec):
+        scn = empty_scn([base_handler(0, kind=params["kind"], catch=params["catch"], filter=1), base_handler(1)], [])
+        Impl.__init__(self, scn, tmp, rec)
+        self.params = params
+        self.n = params["threads"]
+        self.past_filter = [threading.Event() for _ in range(self.n)]
+        self.in_sink0 = threading.Event()
+        for h in scn["handlers"]:
+            self.add(h)
+
+    def log_t(self, k, i):
+        self.lg.bind(t=k, **self.extras(i)).log("INFO", "m%d" % i)
+
+    def on_filter(self, h, record):
+        k, i = record["extra"].get("t"), record["extra"]["i"]
+        if h == 0 and k is not None and i < 100:
+            self.past_filter[k].set()        # this thread is about to take (or wait for) the handler lock
+
+    def on_write(self, h, message):
+        ex = message.record["extra"]
+        i, k = ex["i"], ex.get("t")
+        if h == 0 and k is not None and i < 100 and (k == 0 or self.params["reenter_all"]):
+            if k == 0:
+                self.in_sink0.set()
+                for j in range(1, self.n):
+                    self.past_filter[j].wait(3.0)
+                time.sleep(self.params["grace"])      # let the other threads reach the lock
+            self.log_t(k, 100 + k)                     # the logger used from inside its own sink
+        self.last_i[h] = i
+        return i
+
+
+def _conc_runner(params, box):
+    tmp = tempfile.mkdtemp(prefix="c04_")
+    rec = Recorder("ok")
+    old = sys.stderr
+    try:
+        sys.stderr = rec
+        impl = ConcImpl(params, tmp, rec)
+        n = impl.n
+        results = [None] * n
+
+        def worker(k):
+            try:
+                impl.log_t(k, k)
+                results[k] = "ok"
+            except Exception as e:  # noqa
+                results[k] = kind_of(e)
+        ths = [threading.Thread(target=worker, args=(k,), daemon=True, name="c04-logger-%d" % k) for k in range(n)]
+        ths[0].start()
+        impl.in_sink0.wait(3.0)
+        for t in ths[1:]:
+            t.start()
+        deadline = time.time() + WATCHDOG_S - 2
+        for t in ths:
+            t.join(max(0.1, deadline - time.time()))
+        box["hung"] = [t.name for t in ths if t.is_alive()]
+        if not box["hung"]:
+            try:
+                impl.log_t(None, 9)              # the following message
+                after = "ok"
+            except Exception as e:  # noqa
+                after = kind_of(e)
+            events, junk = parse_reports(rec.take())
+            box["obs"] = {"results": results, "after": after, "events": sorted(events),
+                          "sinks": {str(h): sorted(v, key=str) for h, v in impl.sinks().items()},
+                          "junk": [j[:80] for j in junk]}
+            impl.cleanup()
+        box["done"] = True
+    except BaseException as e:  # noqa
+        box["exc"] = e
+    finally:
+        sys.stderr = old
+        shutil.rmtree(tmp, ignore_errors=True)
+
+
+def conc_expected(params):
+    """the property: every use of the logger from inside the handler's own sink is detected (reported with
+    catch=True, raised to that caller with catch=False), nobody blocks, the others and the following message
+    are unaffected"""
+    n, catch = params["threads"], params["catch"]
+    results, events, s0, s1 = [], [], [], []
+    for k in range(n):
+        if k == 0 or params["reenter_all"]:
+            if catch:
+                events.append(ev_report(0, 100 + k, "RuntimeError", False, "m"))
+                results.append("ok")
+                s0.append(k)
+                s1 += [100 + k, k]
+            else:
+                results.append("RuntimeError")
+        else:
+            results.append("ok")
+            s0.append(k)
+            s1.append(k)
+    s0.append(9)
+    s1.append(9)
+    return {"results": results, "after": "ok", "events": sorted(events),
+            "sinks": {"0": sorted(s0, key=str), "1": sorted(s1, key=str)}, "junk": []}
+
+
+def conc_cases():
+    out = []
+    for kind in ("callable", "stream", "streamFlush", "standard", "file"):
+        for catch in (1, 0):
+            for threads in (2, 3):
+                for reenter_all in (0, 1):
+                    out.append({"kind": kind, "catch": catch, "threads": threads, "reenter_all": reenter_all,
+                                "grace": 0.12})
+    return out
+
+
+def judge_conc(ctx, params):
+    status, box = run_watchdog(_conc_runner, params)
+    exp = conc_expected(params)
+    obs = box.get("obs")
+    ctx.case(("conc", json.dumps(params, sort_keys=True)), nontrivial=True)
+    ctx.stat("concurrent_reentry")
+    if status == "hang" or box.get("hung"):
+        ctx.violation("threads %r log to handler 0 (%s, catch=%s) while its sink uses the logger: still blocked "
+                      "after %.0f s (deadlock); the property demands RuntimeError detection and no blocking"
+                      % (box.get("hung") or "all", params["kind"], params["catch"], WATCHDOG_S),
+                      {"oracle_only": "concurrent-reentry", "params": params, "expected": exp,
+                       "observed": {"hung": box.get("hung", "watchdog")}})
+        _hang_seen()
+        return True
+    if obs != exp:
+        ctx.violation("concurrent re-entrancy %r: property demands %r, implementation did %r" % (params, exp, obs),
+                      {"oracle_only": "concurrent-reentry", "params": params, "expected": exp, "observed": obs})
+        return True
+    return False
+
+
+def _closed_loop_runner(params, box):
+    """a coroutine sink bound to an explicit loop (`loop=`; with enqueue=True the loop captured at add()) that is
+    CLOSED before later messages: scheduling the task fails – that is a failure of the sink's write stage"""
+    from loguru._logger import Core, Logger
+    rec = Recorder("ok")
+    old = sys.stderr
+    loop = asyncio.new_event_loop()
+    try:
+        sys.stderr = rec
+        lg = Logger(core=Core(), exception=None, depth=0, record=False, lazy=False, colors=False, raw=False,
+                    capture=True, patchers=[], extra={})
+        sinks = {0: [], 1: [], 2: []}
+
+        def mk(h):
+            return lambda m: sinks[h].append(idx_of_text(str(m), False))
+
+        async def coro(m):
+            sinks[1].append(idx_of_text(str(m), False))
+        order = params["position"]       # position of the coroutine handler among the three
+        hid_of = {}
+        plain = [0, 2]
+        for pos in range(3):
+            if pos == order:
+                hid_of[1] = lg.add(coro, format="{message}", loop=loop, catch=bool(params["catch"]),
+                                   enqueue=bool(params["enqueue"]))
+            else:
+                h = plain.pop(0)
+                hid_of[h] = lg.add(mk(h), format="{message}")
+        results = []
+        nmsg = params["before"] + params["after"]
+        for i in range(nmsg):
+            if i == params["before"]:
+                loop.close()
+            try:
+                lg.bind(i=i).info("m%d" % i)
+                results.append("ok")
+            except Exception as e:  # noqa
+                results.append(kind_of(e))
+            aw = lg.complete()
+            if i < params["before"]:
+                loop.run_until_complete(aw)
+        events, junk = parse_reports(rec.take())
+        box["obs"] = {"results": results, "events": sorted(events),
+                      "sinks": {str(h): sinks[h] for h in sinks}, "junk": [j[:80] for j in junk],
+                      "coroutine_handler_id": hid_of[1]}
+        try:
+            lg.remove()
+        except Exception:  # noqa
+            pass
+        box["done"] = True
+    except BaseException as e:  # noqa
+        box["exc"] = e
+    finally:
+        sys.stderr = old
+        if not loop.is_closed():
+            loop.close()
+
+
+def closed_loop_expected(params):
+    pos, catch, enq = params["position"], params["catch"], params["enqueue"]
+    results, events = [], []
+    sinks = {"0": [], "1": [], "2": []}
+    first_plain_before = pos > 0            # plain handler 0 is registered before the coroutine sink?
+    for i in range(params["before"] + params["after"]):
+        if i < params["before"]:
+            results.append("ok")
+            for h in sinks:
+                sinks[h].append(i)
+            continue
+        # the loop is closed: loop.create_task raises RuntimeError inside sink.write
+        if enq or catch:
+            events.append(ev_report(pos, i, "RuntimeError", False, "w" if enq else "m"))
+            results.append("ok")
+            sinks["0"].append(i)
+            sinks["2"].append(i)
+        else:
+            results.append("RuntimeError")      # reaches the caller; handlers registered earlier have the message
+            plain_before = {0: [], 1: ["0"], 2: ["0", "2"]}[pos]
+            for h in plain_before:
+                sinks[h].append(i)
+    return {"results": results, "events": sorted(events), "sinks": sinks, "junk": [], "coroutine_handler_id": pos}
+
+
+def closed_loop_cases():
+    return [{"position": p, "catch": c, "enqueue": e, "before": b, "after": a}
+            for p in (0, 1, 2) for c in (1, 0) for e in (0, 1) for (b, a) in ((1, 2), (0, 1), (2, 1))]
+
+
+def judge_closed_loop(ctx, params):
+    status, box = run_watchdog(_closed_loop_runner, params)
+    exp = closed_loop_expected(params)
+    obs = box.get("obs")
+    ctx.case(("closed-loop", json.dumps(params, sort_keys=True)), nontrivial=True)
+    ctx.stat("closed_loop")
+    if status == "hang":
+        ctx.violation("coroutine sink on a closed loop %r: did not terminate (deadlock)" % (params,),
+                      {"oracle_only": "closed-loop", "params": params, "expected": exp, "observed": "hang"})
+        return True
+    if obs != exp:
+        ctx.violation("coroutine sink whose loop was closed %r: property demands %r, implementation did %r"
+                      % (params, exp, obs),
+                      {"oracle_only": "closed-loop", "params": params, "expected": exp, "observed": obs})
+        return True
+    return False
+
+
 # ----------------------------------------------------------------------------- generators
 def base_handler(hid, **kw):
     h = {"id": hid, "level": 0, "catch": 1, "enqueue": 0, "kind": "callable", "filter": 0, "dynamic": 0,
@@ -713,8 +1019,6 @@ def stage_valid(stage, c):
         return c["kind"] == "streamFlush"
     if stage == "coroBody":
         return c["kind"] == "coroutine"
-    if stage == "write":
-        return c["kind"] != "coroutine"
     if stage == "filter":
         return bool(c["filter"])
     if stage == "dynFormat":
@@ -866,6 +1170,10 @@ def random_scn(rng):
                     if not (c2["kind"] == "file" and st == "write" and
                             any(f[1] == c2["id"] and f[2] == "stop" for f in scn["faults"])):
                         scn["faults"].append([j, c2["id"], st, rng.choice(ERR_NAMES)])
+    if scn["noloop"]:
+        # without an event loop a coroutine sink returns before it schedules anything: no `write` stage to fail
+        kinds = {c["id"]: c["kind"] for c in hs}
+        scn["faults"] = [f for f in scn["faults"] if not (f[2] == "write" and kinds.get(f[1]) == "coroutine")]
     # removal
     if rng.chance(35):
         at = rng.range(0, len(groups))
@@ -978,8 +1286,31 @@ def run(ctx):
     rng = ctx.rng
     drv = core.Driver(DRIVER)
     boost = 3 if getattr(ctx, "search_boost", False) else 1
+    warnings.filterwarnings("ignore", message="coroutine .* was never awaited")
     logging.getLogger().setLevel(logging.WARNING)
 
+    # oracle-only streams outside the sequential model: several logging threads + a re-entrant sink; a coroutine
+    # sink whose loop has been closed
+    if True:
+        crng = rng.fork("oracle-only")
+        cc = conc_cases()
+        cl = closed_loop_cases()
+        if ctx.quick:
+            crng.shuffle(cc)
+            crng.shuffle(cl)
+            cc, cl = cc[:10], cl[:14]
+        nbad = 0
+        for params in cl:
+            nbad += judge_closed_loop(ctx, params)
+            if nbad >= 3:
+                break
+        nbad = 0
+        for params in cc:
+            nbad += judge_conc(ctx, params)
+            if nbad >= 1:
+                break
+        if nbad and getattr(ctx, "search_boost", False):
+            boost = 1            # a deadlock has been exhibited: no need for the enlarged search below
     scns = []
     for k, scn in enumerate(CORPUS):
         scns.append(("corpus[%d]" % k, scn))
@@ -1084,6 +1415,20 @@ def replay(ctx, rep):
             print("  -", b.get("name") if isinstance(b, dict) else b)
         return 1
     r = rep["replay"]
+    if r.get("oracle_only") in ("concurrent-reentry", "closed-loop"):
+        warnings.filterwarnings("ignore", message="coroutine .* was never awaited")
+        conc = r["oracle_only"] == "concurrent-reentry"
+        status, box = run_watchdog(_conc_runner if conc else _closed_loop_runner, r["params"])
+        exp = conc_expected(r["params"]) if conc else closed_loop_expected(r["params"])
+        print("case:          ", r["oracle_only"], r["params"])
+        print("implementation:", status, box.get("obs"), "hung=%r" % (box.get("hung"),))
+        print("property:      ", exp)
+        bad = status == "hang" or bool(box.get("hung")) or box.get("obs") != exp
+        print("REPRODUCED" if bad else "not reproduced")
+        sys.stdout.flush()
+        if status == "hang" or box.get("hung"):
+            os._exit(1)
+        return 1 if bad else 0
     scn = r["scenario"]
     status, obs = run_impl(scn)
     print("scenario:      ", line_of(scn))
